@@ -3,7 +3,7 @@
    outputs; these functions run the model on the same histories (vm_compute)
    and return the cases on which model and implementation differ, with the
    model's outputs. *)
-From CV Require Import Base.Prelude Seq.RollingCounter Seq.TimedCheck.
+From CV Require Import Base.Prelude Seq.RollingCounter Seq.TimedCheck Seq.RollingPercentile.
 
 Fixpoint list_eqb {A} (eqb : A -> A -> bool) (a b : list A) : bool :=
   match a, b with
@@ -43,3 +43,17 @@ Definition tc_mismatches (cs : list tc_case) : list (nat * list tcout) :=
     let '(id, sleep, budget, ops, outs) := c in
     let m := tc_run sleep budget ops in
     if list_eqb tcout_eqb m outs then [] else [(id, m)]) cs.
+
+(* ---------- RollingPercentile ---------- *)
+Definition rpout_eqb (a b : rpout) : bool :=
+  match a, b with
+  | PNone, PNone => true
+  | PList x, PList y => list_eqb Z.eqb x y
+  | _, _ => false
+  end.
+Definition rp_case : Type := nat * Z * Z * Z * Z * list rpop * list rpout.
+Definition rp_mismatches (cs : list rp_case) : list (nat * list rpout) :=
+  flat_map (fun c : rp_case =>
+    let '(id, n, w, start, cap, ops, outs) := c in
+    let m := rp_run n w start cap ops in
+    if list_eqb rpout_eqb m outs then [] else [(id, m)]) cs.
